@@ -39,6 +39,7 @@ type Obligation struct {
 	Sliced  string
 	NoRetry bool // listed known finding: expected to stay undischarged
 	Output  string
+	replay  *replayPlan
 }
 
 // Frame: one function activation under symbolic execution (top-level or inlined).
@@ -67,6 +68,7 @@ type Frame struct {
 	outEdges map[*ssa.BasicBlock][]outEdge
 	blockIn  map[*ssa.BasicBlock]*State
 	returns  []retInfo
+	exitResults Value // merged results at the function exit (for replay)
 	callSeq  map[string]int
 	siteOrd  map[ssa.Instruction]map[string]int
 	deferred []*ssa.Defer
